@@ -124,7 +124,7 @@ export FSignum (fsignum)
 class OfInt (K : Type) where ofInt : Int → K
 export OfInt (ofInt)
 /-- dot product of points -/
-class Dot (P K : Type) where dot : P → P → K
+class Dot (P : Type) (K : outParam Type) where dot : P → P → K
 export Dot (dot)
 
 instance : FAbs Float := ⟨Float.abs⟩
